@@ -312,9 +312,28 @@ def very_long_lines():
             c_config(b"user.name", b"N" * 66000), W(b"f", b"4"), c_add([b"f"]), c_commit(b"four"), c_log(1)]
 
 
+def blank_ignore_lines():
+    # F55: an empty line is not an entry (it used to hide every untracked directory)
+    return ID + [W(b".goitignore", b"*.log\n\nbuild/\n\n"), W(b"d/f", b"1"), W(b"d/e/g", b"2"), W(b"x.log", b"l"), W(b"build/o", b"o"),
+                 W(b"top", b"t"), c_status(), c_add([b"."]), c_ls_files(False), c_commit(b"c1"), W(b"n/new", b"n"), c_status(), c_add([b"n"]),
+                 c_ls_files(False), W(b".goitignore", b"\n\n"), c_status(), c_add([b"."]), c_ls_files(False), W(b".goitignore", b"\r\n*.log\r\n\r\n"),
+                 W(b"m/k", b"k"), c_status(), c_add([b"m"]), c_ls_files(False)]
+
+
+def add_below_a_file():
+    # a tracked path whose parent directory has become a regular file no longer exists (ENOTDIR, not ENOENT):
+    # naming it to add unstages it, alone, with a sibling, and as a directory argument
+    return ID + [W(b"d/x", b"1"), W(b"d/y", b"2"), W(b"e/z", b"3"), W(b"e/sub/w", b"4"), W(b"keep.txt", b"k"), c_add([b"."]), c_commit(b"c1"),
+                 Edit("delete", b"e/z"), c_add([b"e/z"]), c_ls_files(False), Edit("rmtree", b"d"), W(b"d", b"now a file"),
+                 c_add([b"d/x"]), c_ls_files(False), c_status(), c_add([b"d/y", b"keep.txt"]), c_ls_files(False),
+                 Edit("rmtree", b"e"), W(b"e", b"file too"), c_add([b"e/sub"]), c_ls_files(False), c_status()]
+
+
 ORACLE_ONLY = {"very-long-lines", "newline-names", "invalid-ignore-lines", "quoting-ignore-lines"}
 
 DIRECTED = [
+    (("C04", "C06"), "add-below-a-file", add_below_a_file, "a tracked path below a directory that became a regular file (ENOTDIR) is a path that no longer exists: add unstages it"),
+    (("C17", "C13", "C04"), "blank-ignore-lines", blank_ignore_lines, "F55: empty lines in .goitignore (in the middle, at the end, CRLF files) exclude nothing"),
     (("C04", "C09", "C18"), "unclean-file-arguments", unclean_file_arguments, "F53: a trailing slash on an existing file, a/../a/b spellings, and the empty argument for add, rm, restore"),
     (("C20", "C11", "C08", "C12"), "very-long-lines", very_long_lines, "F52: a config value and a commit subject of 70 000 bytes (the model driver is quadratic in line length: oracle only)"),
     (("C20", "C18"), "hostile-config-arguments", hostile_config_arguments, "F51/F54: an empty section name, line breaks, and keys that would be read back as another key (=, tab, outer blanks) are refused with nothing written; every command still loads the configuration and the identity is unchanged"),
